@@ -68,6 +68,77 @@ theorem applied : ∃ r, applyPatch file patch {} none = .ok r ∧
 -- with `-F 0` the hunk is rejected
 #guard locateHunk file hunk false 0 0 0 == none
 
+/-! #### D109: the very end of the file is a position too
+
+Follow-up of D99: when fuzz ignores the WHOLE old side of a hunk (the old side is trailing context only, behind an addition), no line of
+the file is compared, and the hunk may be placed at the very end of the file — also of an empty file.  Before D109 the scan never
+looked at position `file.length` (and `admissibleB` had the conjunct `p < file.length` to match). -/
+
+/-- the empty file -/
+def file0 : List Line := []
+/-- `@@ -1,2 +1,3 @@`: `+x`, ` a`, ` b` -/
+def hunk0 : Hunk := ⟨⟨1, 2⟩, ⟨1, 3⟩, [⟨PLUS, ln 120⟩, ⟨SP, ln 97⟩, ⟨SP, ln 98⟩]⟩
+def patch0 : Patch := { hunks := [hunk0] }
+
+theorem hunk0_WF : hunk0.WF := by unfold Hunk.WF; decide
+
+/-- position 0 of the empty file — its end — is admissible with fuzz 2 (both context lines ignored), and is the only admissible
+    placement within `-F 2` -/
+theorem eof_admissible : fuzzPair hunk0.lines 2 = (0, 2) ∧ admissibleB file0 hunk0 false 2 0 2 = true ∧
+    allAdmissible file0 hunk0 false 2 0 = [(0, 2)] ∧ nextCursor file0 hunk0 0 = 0 := by decide
+
+/-- `locate_hunk` finds it there, with fuzz 2 -/
+theorem eof_located : locateHunk file0 hunk0 false 0 2 0 = some ⟨0, 2, 0⟩ := by decide
+
+/-- … as `locate_complete` says it must -/
+example : ∃ loc, locateHunk file0 hunk0 false 0 2 0 = some loc ∧ loc.fuzz ≤ 2 :=
+  locate_complete file0 hunk0 false 0 2 0 0 2 hunk0_WF (by decide) (by decide) eof_admissible.2.1
+
+/-- `apply_patch` (`-F 2`, the default) writes the one line `x` -/
+theorem eof_applied : ∃ r, applyPatch file0 patch0 {} none = .ok r ∧
+    r.out = [.fromPatch (ln 120)] ∧
+    r.out = spliceAt file0 0 [(hunk0, 0)] ∧
+    render .lf r.out = [120, 10] ∧
+    r.applied = [(0, ⟨0, 2, 0⟩)] ∧ r.rejected = [] ∧ r.failed = 0 ∧
+    r.msgs = [.hunk 1 "succeeded" 1 2 0] :=
+  ⟨_, rfl, by decide⟩
+
+/-- p q r -/
+def file3 : List Line := [ln 112, ln 113, ln 114]
+/-- `@@ -4 +4,2 @@`: `+x`, ` a` — stated behind the last line of the file -/
+def hunk3 : Hunk := ⟨⟨4, 1⟩, ⟨4, 2⟩, [⟨PLUS, ln 120⟩, ⟨SP, ln 97⟩]⟩
+def patch3 : Patch := { hunks := [hunk3] }
+
+theorem hunk3_WF : hunk3.WF := by unfold Hunk.WF; decide
+
+/-- index 3 — the end of the file — is admissible with fuzz 1; with fuzz 0 nothing is; with fuzz 1 every position is (nothing is
+    left to compare), the scan starts at the stated line, which is the end of the file -/
+theorem end_admissible : admissibleB file3 hunk3 false 1 3 1 = true ∧ allAdmissible file3 hunk3 false 0 0 = [] ∧
+    allAdmissible file3 hunk3 false 1 0 = [(0, 1), (1, 1), (2, 1), (3, 1)] ∧
+    candidates (searchStart 3 0 file3.length) 0 file3.length = [3, 2, 1, 0] := by decide
+
+theorem end_located : locateHunk file3 hunk3 false 0 1 0 = some ⟨3, 1, 0⟩ := by decide
+
+/-- `apply_patch -F 1` appends `x`: `p q r x` -/
+theorem end_applied : ∃ r, applyPatch file3 patch3 { maxFuzz := 1 } none = .ok r ∧
+    r.out = [.fromFile 0 (ln 112), .fromFile 1 (ln 113), .fromFile 2 (ln 114), .fromPatch (ln 120)] ∧
+    r.out = spliceAt file3 0 [(hunk3, 3)] ∧
+    render .lf r.out = [112, 10, 113, 10, 114, 10, 120, 10] ∧
+    r.applied = [(0, ⟨3, 1, 0⟩)] ∧ r.rejected = [] ∧ r.failed = 0 ∧
+    r.msgs = [.hunk 1 "succeeded" 4 1 0] :=
+  ⟨_, rfl, by decide⟩
+
+#guard locateHunk file0 hunk0 false 0 2 0 == some ⟨0, 2, 0⟩
+#guard locateHunk file0 hunk0 false 0 1 0 == none
+#guard (match applyPatch file0 patch0 {} none with
+        | .ok r => render .lf r.out == str "x\n"
+        | .error _ => false)
+#guard locateHunk file3 hunk3 false 0 1 0 == some ⟨3, 1, 0⟩
+#guard locateHunk file3 hunk3 false 0 0 0 == none
+#guard (match applyPatch file3 patch3 { maxFuzz := 1 } none with
+        | .ok r => render .lf r.out == str "p\nq\nr\nx\n"
+        | .error _ => false)
+
 end D99
 
 end PatchModel.C03
